@@ -160,6 +160,7 @@ type Checker struct {
 type propRec struct {
 	calls      int
 	dropped    int
+	unknown    int // calls whose outcome was not reported to the caller (E3)
 	deliveries int
 	atLeaderOK bool
 	batch      []int
@@ -457,7 +458,7 @@ func (k *Checker) refreshAfterStorageChange(n *Node) {
 	}
 	ok := k.c.guard(n, "VerifState", func() error { n.st = n.rn.VerifState(); return nil })
 	if !ok {
-		n.up, n.rn = false, nil
+		n.down()
 		return
 	}
 	k.refreshLog(n, &n.st, true)
